@@ -94,6 +94,10 @@ pub const EXPR_ERRORS: &[(&str, &str)] = &[
 /// statements that fail
 pub const STMT_ERRORS: &[(&str, &str)] = &[
     ("redeclaration", "x_ := 1\nx_ := 2\n"),
+    ("parameter named this, function called through an object", "fn t_(this, s_) {\nprint(s_)\n}\nt_(1, \"direct\")\nto_ := {\"f\": t_}\nto_.f(2, \"via\")\n"),
+    ("pattern parameter that binds this, function called through a key", "t_ := fn ([this]) {\n}\nto_ := {\"f\": t_}\nto_[\"f\"]([1])\n"),
+    ("collector named this, function held by a variable read from an object", "fn t_(..this) {\n}\nto_ := {\"f\": t_}\nh_ := to_.f\nh_(1)\n"),
+    ("this declared in the body of a method", "to_ := {\"f\": fn () {\nthis := 1\n}}\nto_.f()\n"),
     ("built-in stored in an object and called through it", "lg_ := {\"sink\": print, \"n\": 0}\nprint(\"direct\")\nlg_.sink(\"line\")\n"),
     ("built-in stored in an object and called by key", "lg_ := {\"sink\": print}\nlg_[\"sink\"](\"line\")\n"),
     ("built-in taken from an object and called later", "lg_ := {\"sink\": print}\nh_ := lg_.sink\nh_(\"line\")\n"),
